@@ -1,0 +1,9 @@
+//go:build verif
+
+// Contracts for GoVC (comments only; see /verif/DESIGN.md).
+
+package debug
+
+//@ func GetStats() (s Stats)
+//@   modifies nothing
+//@   ensures c17_zero: s.Memory.Alloc == 0 && s.Memory.Count == 0 && s.Encoder.Hit == 0 && s.Encoder.Miss == 0 && s.Encoder.Size == 0 && s.Decoder.Hit == 0 && s.Decoder.Miss == 0 && s.Decoder.Size == 0
